@@ -92,7 +92,7 @@ CHECKS = {
         "level": "fault_enumeration",
         "exhaustive": True,
         "technique": "runtime monitoring in virtual time: every silence point of every connect flow enumerated; deadline oracle on the recorded trace",
-        "level_text": "The fault is 'the client (or the broker) falls silent'; it is injected at every step of the five connect flows with every combination of inter-step gaps {0, 1 s, 4.9 s}, plus repeated CONNECTs and stray packets (a few hundred cases, all run). The oracle is the virtual timestamp of the handler's return and of the gateway closing the broker link against 5 s + one 100 ms poll after the last CONNECT. Mid-exchange packets include a CONNECT that the gateway refuses (keep-alive 0) and one with a reserved protocol ID.",
+        "level_text": "The fault is 'the client (or the broker) falls silent'; it is injected at every step of the five connect flows with every combination of inter-step gaps {0, 1 s, 4.9 s}, plus repeated CONNECTs and stray packets (a few hundred cases, all run). The oracle is the virtual timestamp of the handler's return and of the gateway closing the broker link against 5 s + one 100 ms poll after the last CONNECT. Mid-exchange packets include a CONNECT that the gateway refuses (keep-alive 0) and one with a reserved protocol ID. Complete flows are also run against a broker that does not read on an unbuffered link, so that the gateway's write of the MQTT CONNECT blocks.",
         "level_note": "virtual time (synctest) stands for real time; a peer that never sends CONNECT at all is outside this property (see C34)",
         "design_ref": "3/C10",
     },
@@ -126,7 +126,7 @@ CHECKS = {
     "C14": {
         "level": "exploration",
         "technique": "runtime monitoring: universal trace monitor (MQTT DISCONNECT must be credited by a plain client DISCONNECT) over termination/sleep/traffic workloads",
-        "level_text": "Every termination cause (gateway shutdown, client DISCONNECT, broker close, broker garbage, undecodable datagram, unhandled packet) is applied at every step of seven base histories (connect with/without will and auth, publishes in flight both ways, pending registration, asleep with/without pinger, awake, half-open connect), plus sleep cycles and generated traffic; the monitor counts MQTT DISCONNECTs against plain client DISCONNECTs.",
+        "level_text": "Every termination cause (gateway shutdown, client DISCONNECT, broker close, broker garbage, undecodable datagram, unhandled packet) is applied at every step of seven base histories (connect with/without will and auth, publishes in flight both ways, pending registration, asleep with/without pinger, awake, half-open connect), plus sleep cycles and generated traffic; the monitor counts MQTT DISCONNECTs against plain client DISCONNECTs. Every eighth case of the sleep and termination workloads has a client that writes the 3-byte Length form (all datagrams / all but CONNECT / DISCONNECT only).",
         "level_note": "lock-step delivery; racy terminations are exercised by C13's repeated runs",
         "design_ref": "3/C14",
     },
@@ -140,7 +140,7 @@ CHECKS = {
         "race_deciding_files": True,
         "race_func_prefixes": ["transactions.", "client.(*sleepTransaction)", "client.newSleepTransaction"],
         "technique": "runtime monitoring: invariant probes (completion-callback counter, Err stability, callback-after-Done) over enumerated and colliding operation histories + Go race detector + crash watch",
-        "level_text": "All operation sequences up to length 4 over the six transaction operations are run on five transaction variants in virtual time, plus same-instant and real-time collisions of completion calls with timers, and about 2000 histories of the client's sleep transaction through the real Client.Sleep (replies exactly at / just before timer instants, RetryDelay down to 0 in real time); probes assert at-most-once completion and no action after completion. The same workload runs under -race, where a report inside package transactions or the client's sleep transaction (or a nil dereference, seen as a crash) decides. Slow-interface histories (real time): the DISCONNECT retransmission of the sleep transaction takes 1.3 s to leave the interface (memnet PreWrite hook, no lock held) while the reply, a 1 s sleep and the wake-up finish the transaction; a retransmission delivered after Sleep() returned is a violation.",
+        "level_text": "All operation sequences up to length 4 over the six transaction operations are run on five transaction variants in virtual time, plus same-instant and real-time collisions of completion calls with timers, and about 2000 histories of the client's sleep transaction through the real Client.Sleep (replies exactly at / just before timer instants, RetryDelay down to 0 in real time); probes assert at-most-once completion and no action after completion. The same workload runs under -race, where a report inside package transactions or the client's sleep transaction (or a nil dereference, seen as a crash) decides. Slow-interface histories (real time): the DISCONNECT retransmission of the sleep transaction takes 1.3 s to leave the interface (memnet PreWrite hook, no lock held) while the reply, a 1 s sleep and the wake-up finish the transaction; a retransmission delivered after Sleep() returned is a violation. Half of the real-time collision histories use a completion callback that takes 500 us and a quarter start every goroutine with Success() (simultaneous acknowledgements).",
         "level_note": "collision interleavings are sampled by the scheduler (16 cores, repetitions), not enumerated; race detector only sees races that occur in the run",
         "design_ref": "3/C18",
     },
@@ -190,7 +190,7 @@ CHECKS["C27"] = {
     "level": "exploration",
     "crash_is_violation": True,
     "technique": "runtime monitoring: reference-matcher oracle over callback events of the real client library driven by a scripted gateway (virtual time); exhaustive single-filter x name matrix",
-    "level_text": "Every one of the 105 filters over a small level alphabet (with '+', '#', empty levels) is subscribed alone and all 39 topic names are delivered to it (exhaustive for that matrix); two-filter sets are sampled in the quick tier and enumerated in the thorough tier; random subscribe/unsubscribe histories on top. The recorded callback invocations are compared with an independent MQTT topic matcher, before and after Unsubscribe. Third front: the subscriptions change between the arrival of a message and its delivery (QoS 2: PUBREL held back) - Unsubscribe, re-Subscribe with another callback, a re-Subscribe the gateway refuses, Subscribe of another matching filter.",
+    "level_text": "Every one of the 105 filters over a small level alphabet (with '+', '#', empty levels) is subscribed alone and all 39 topic names are delivered to it (exhaustive for that matrix); two-filter sets are sampled in the quick tier and enumerated in the thorough tier; random subscribe/unsubscribe histories on top. The recorded callback invocations are compared with an independent MQTT topic matcher, before and after Unsubscribe. Third front: the subscriptions change between the arrival of a message and its delivery (QoS 2: PUBREL held back) - Unsubscribe, re-Subscribe with another callback, a re-Subscribe the gateway refuses, Subscribe of another matching filter. Fourth front: Unsubscribe and Subscribe of one already subscribed filter in progress at once (all accept/refuse combinations, both acknowledgement orders): the callback revoked by the accepted Unsubscribe never runs.",
     "level_note": "which of several matching callbacks runs is not constrained (the property asks for 'a' matching subscription)",
     "design_ref": "3/C27",
 }
